@@ -34,4 +34,11 @@ def obligations(repo):
     obs.append(dict(id="C12.crc.fold.bounded", prop="C12", harness="harness/crc_fold_h.c", entry="h_fold", unwind=10,
                     unwindset=["crc32_init.0:257", "crc32_init.1:257"], strength="B(buffer size <= 6 bytes)", functions=["nvm_crc32", "crc32_init"],
                     must_have=[r"C12\.crc\.fold", r"COVER"], min_checks=5, timeout=900, backends=["minisat", "kissat"]))
+    # extended tail on a file of one fixed shape (real serializer -> real loader, real CRC; harness/ser_rt_h.c): bounded stand-in for
+    # the "appended tail" case of the property; no sidecar, so a rewritten loader prologue cannot make it unattachable
+    obs.append(dict(id="C12.tail.shape", prop="C12", harness="harness/ser_rt_h.c", entry="h_ser_tail", defines={"SER_SHAPE": 8},
+                    include_repo=["src"], unwind=12, unwindset=["crc32_init.0:257", "crc32_init.1:257", "nvm_crc32.0:260"], object_bits=10,
+                    strength="B(one module shape: 1 debug entry; contents and the appended byte arbitrary)",
+                    functions=["nvm_deserialize", "nvm_serialize", "nvm_crc32"], must_have=[r"C12\.tail", r"COVER"], min_checks=20,
+                    timeout=2400, mem_gb=20, weight=60, backends=["minisat", "kissat"]))
     return obs
